@@ -124,6 +124,21 @@ CLAIMED = {
             "frange termination and coverage, the grid covers the bounding box, filled iff some sampled point inside; find_ctrlpts = indices span-p..span which contain the support of the basis (Cox-de Boor local support). "
             "Correspondence and exact oracle on ray.intersect, linalg.is_left / wn_poly / convex_hull, voxelize.voxelize, operations.find_ctrlpts plus frange / grid / in-out helpers.",
             "Hull containment / convexity and wn = inside are oracle-checked only; ray theorems assume the exact square root (the rounded sqrt is passed to the model as an input). Open finding F-20a: use_cubes=True on a flat bounding box never returns."),
+    'C11': ("7/C11",
+            "Lean theorems: collocation_interpolates - whenever lu_solve returns control points for the collocation system of ANY parameter list and knot vector, the curve evaluated (span by linear search, A2.2/A3.1) at the "
+            "i-th parameter is the i-th data point (every degree, dimension, number of points; composition of the LU correctness theorem of C16, the row structure of the collocation matrix and the evaluation model); "
+            "interpolateCurve_interpolates - the same for the model of fitting.interpolate_curve end to end; parameters start at 0; the approximation keeps the first and last data point as end control points. "
+            "The model (parametrisation with chord lengths as inputs, averaged knot vectors Eq. 9.8 and 9.68/9.69, collocation matrix, curve and two-pass surface interpolation, least-squares curve approximation via the normal equations) "
+            "is tied to fitting.interpolate_curve / interpolate_surface / approximate_curve by exact correspondence (the sqrt doubles are recomputed by the harness and passed as exact values).",
+            "Hypothesis, not proved: the collocation matrix has non-zero Doolittle pivots (the harness checks lu_solve returns on every generated data set). Not proved in Lean: surface interpolation, the minimisation property "
+            "(the exact oracle checks the normal equations and end/corner interpolation); approximate_surface is oracle-only."),
+    'C14': ("7/C14",
+            "Lean theorems (25) over a token-level model (numbers are abstract tokens) of the smesh, vmesh (repaired), txt 1-D/2-D and csv files and of the dict form behind JSON (trims, delta, sense flags, containers): "
+            "import o export = identity up to rational form (unit weights) and normalised knot vectors for every degree, size triple, net and container length; documented row/column order; evaluation invariant under the reader's "
+            "knot normalisation; pinned vmesh reader and pinned 2-D file saver refuted by kernel decide on 2x3x4 and 2x3 witnesses. The real writers' file contents (tokenised, numbers canonicalised) and the real readers' results are "
+            "compared with the model's; the oracle checks export-then-import at public level for JSON (curves, surfaces, volumes, containers, trims, delta), smesh, vmesh, txt, csv.",
+            "Numbers are abstract tokens: the print/parse round trip is checked only by the float-mode companion at printed precision. Exact mode runs smesh/vmesh natively, txt/csv through an extended float shadow, JSON with dyadic inputs. "
+            "YAML / libconfig / Jinja2 skipped (packages missing). Model mirrors the repaired code (F-14a, F-14b fixed by fix: commits after the check reported them with replays)."),
     'C03': ("7/C03",
             "Lean theorems over the executable model (any degree, any non-decreasing knot function, any parameter, any ordered field): "
             "linear span search returns the unique half-open interval; binary search (termination included) equals linear search under the tolerance hypothesis that F-17b violates (refuted without it by decide +kernel); A2.2 has p+1 non-negative values summing to 1 and equals the Cox-de Boor "
